@@ -113,11 +113,21 @@ var _ = digest.SpecHashSlot // spec functions used by the contracts below
 //@   ghost var cpFound mathint = 0
 //@   set cpFound = cpFound + ite(result1 == nil && result0.Offset > 0, 1, 0) after call fetchCheckpoint
 //@   ensures the_total_counts_every_database_that_holds_a_checkpoint_stale_or_not: result2 == nil ==> result0 == cpFound - old(cpFound) && result1 <= result0
-//@   modifies heap, curDb, replayFailed, reqs, lastCmd, lastNArgs, lastA1, lastA2, lastA3, lastA4, lastReply, nDel, nPexpire, cpFound
-//@   assert at call Do: never_the_newest: arg0 == "hdel" ==> !(exceptNewest && db#2 == newestDb)
-//@   assert at call Do: only_stale: arg0 == "hdel" ==> cpi#2.Mtime <= before
-//@   assert at call Do: the_position_a_restart_resumes_from_is_kept: arg0 == "hdel" && exceptNewest ==> cpi#2.Offset <= newest && (cpi#2.Offset == newest ==> db#2 != newestDb)
-//@   assert at call Do: what_is_removed_comes_before_the_kept_record_in_the_order_a_start_uses: arg0 == "hdel" && exceptNewest ==> cpi#2.Offset < newest || (cpi#2.Offset == newest && cpi#2.Mtime <= newestMtime)
+//@   modifies heap, curDb, replayFailed, reqs, lastCmd, lastNArgs, lastA1, lastA2, lastA3, lastA4, lastReply, nDel, nPexpire, cpFound, offKeyVal, offDecVal
+//@   assert at call Do: a_record_is_never_removed_unconditionally_the_replay_writes_it_concurrently: arg0 != "hdel"
+//   The conditional delete (script delCheckpointIfUnchanged, by reading: HDEL only if HGET KEYS[1] ARGV[1] == ARGV[2])
+//   names the record's offset field and the offset the scan saw.
+//@   assert at call Do: the_delete_is_conditional_on_the_offset_the_scan_saw: arg0 == "eval" ==> len(args) == 8 && args[0] == dyn(delCheckpointIfUnchanged) && args[2] == dyn(checkpointName) && args[3] == dyn(offKeyVal) && args[4] == dyn(offDecVal)
+//@   assert at call Do: never_the_newest: arg0 == "eval" ==> !(exceptNewest && db#2 == newestDb)
+//@   assert at call Do: only_stale: arg0 == "eval" ==> cpi#2.Mtime <= before
+//@   assert at call Do: the_position_a_restart_resumes_from_is_kept: arg0 == "eval" && exceptNewest ==> cpi#2.Offset <= newest && (cpi#2.Offset == newest ==> db#2 != newestDb)
+//@   assert at call Do: what_is_removed_comes_before_the_kept_record_in_the_order_a_start_uses: arg0 == "eval" && exceptNewest ==> cpi#2.Offset < newest || (cpi#2.Offset == newest && cpi#2.Mtime <= newestMtime)
+//   offKeyVal / offDecVal  the offset field name and the decimal text of the scanned offset of this iteration
+//@   ghost var offKeyVal string
+//@   ghost var offDecVal string
+//@   set offKeyVal = result after call OffsetKey
+//@   set offDecVal = result after call FormatInt
+//@   assert at call FormatInt: the_offset_compared_is_the_scanned_one: i == cpi#2.Offset && base == 10
 //@   loop 1:
 //@     invariant newest_is_the_largest_offset_seen: len(cpis) == len(dbs) && (forall j int :: 0 <= j && j < len(cpis) ==> cpis[j] != nil && cpis[j].Offset <= newest)
 //@     invariant newest_in_the_order_a_start_uses: forall j int :: 0 <= j && j < len(cpis) ==> cpis[j].Offset < newest || (cpis[j].Offset == newest && cpis[j].Mtime <= newestMtime)
